@@ -115,6 +115,8 @@ impl Cell {
 //@use cell.fns Cell::to_xstr assumed
 //@use cell.fns Cell::vec assumed
 //@use cell.fns Cell::to_map assumed
+//@use cell.fns Cell::to_bool assumed
+//@use cell.fns Cell::as_map assumed
 //@use cell.fns Cell::tags assumed
 //@use cell.fns Cell::with_tags assumed
 //@use cell.fns Cell::insert_tag assumed
@@ -228,6 +230,17 @@ impl State {
 
 //@use corewords.fns State::load_core#w_slice
 
+//@use coll.fns ::let_map_begin
+//@use coll.fns ::let_map_end
+//@use coll.fns ::let_map_lookup
+//@use coll.fns ::let_vec_len
+//@use coll.fns ::let_vec_any_len
+//@use coll.fns ::let_vec_at
+// ASSUMED std / rpds meaning of `v.iter().skip(n).cloned().collect()`: the elements from index n on, none past the end
+#[verifier::external_body] fn verif_vec_skip(v: &Xvec, n: usize) -> (r: Xvec)
+    ensures r@ == (if n <= v@.len() { v@.skip(n as int) } else { Seq::<Cell>::empty() })
+{ unimplemented!() }
+//@use coll.fns ::let_vec_rest
 // ---- str>number (D26)
 impl vstd::std_specs::convert::FromSpecImpl<i128> for Cell {
     open spec fn obeys_from_spec() -> bool { true }
@@ -240,7 +253,16 @@ impl From<i128> for Cell {
 #[verifier::external_body] pub struct FmtFlags { _p: u8 }
 impl FmtFlags {
     #[verifier::external_body] pub fn base(&self) -> (r: usize) ensures r <= 0xff { unimplemented!() }
+    #[verifier::external_body] pub fn set_base(self, n: usize) -> FmtFlags { unimplemented!() }
+    #[verifier::external_body] pub fn show_prefix(&self) -> bool { unimplemented!() }
+    #[verifier::external_body] pub fn set_show_prefix(self, t: bool) -> FmtFlags { unimplemented!() }
+    #[verifier::external_body] pub fn show_tags(&self) -> bool { unimplemented!() }
+    #[verifier::external_body] pub fn set_show_tags(self, t: bool) -> FmtFlags { unimplemented!() }
+    #[verifier::external_body] pub fn upcase(&self) -> bool { unimplemented!() }
+    #[verifier::external_body] pub fn set_upcase(&self, t: bool) -> FmtFlags { unimplemented!() }
+    #[verifier::external_body] pub fn build(self) -> Cell { unimplemented!() }
 }
+#[verifier::external_body] fn verif_fmt_tag_name() -> Cell { unimplemented!() }
 impl Default for FmtFlags { #[verifier::external_body] fn default() -> FmtFlags { unimplemented!() } }
 impl State {
     #[verifier::external_body] pub fn parse_fmt_flags(&self, val: &Cell) -> Option<FmtFlags> { unimplemented!() }
@@ -253,6 +275,13 @@ impl State {
 { unimplemented!() }
 #[verifier::external_body] fn verif_substr_all(s: &Xstr) -> Xsubstr { unimplemented!() }
 //@use coll.fns ::core_word_str_to_num
+//@use coll.fns ::update_fmt_flags
+//@use coll.fns ::update_fmt_base
+//@use coll.fns ::with_fmt_prefix
+//@use coll.fns ::update_fmt_prefix
+//@use coll.fns ::update_fmt_tags
+//@use coll.fns ::update_fmt_upcase
+//@use coll.fns ::core_word_error
 
 } // verus!
 fn main() {}
